@@ -77,6 +77,10 @@ struct Case {
     prop: String,
     /// same-origin declarations in separate sheets (two add_css calls / two <style> elements)
     split: bool,
+    /// with `split`: the author sheets are <style> elements scattered over the document (the first in
+    /// <head>, the others together inside a later <div> of the body) instead of adjacent siblings
+    #[serde(default)]
+    scatter: bool,
 }
 
 fn colour_of(lines: &Lines, ch: char, what: &str) -> Option<String> {
@@ -129,8 +133,18 @@ fn check_decls(c: &Case, cx: &mut Cx) {
     for s in sheets(&user) {
         cfg = cfg.with(Opt::UserCss(s));
     }
+    if c.scatter && (!c.split || author.len() < 2) {
+        return;
+    }
     let styles: String = sheets(&author).iter().map(|s| format!("<style>{s}</style>")).collect();
-    let html = format!("{styles}<div><div><div><div><div><div><div><div><p id=i class=c style=\"{inline}\">x</p></div></div></div></div></div></div></div></div>");
+    let body = format!("<div><div><div><div><div><div><div><div><p id=i class=c style=\"{inline}\">x</p></div></div></div></div></div></div></div></div>");
+    let html = if c.scatter {
+        let a = sheets(&author);
+        let rest: String = a[1..].iter().map(|s| format!("<style>{s}</style>")).collect();
+        format!("<html><head><style>{}</style></head><body><div>{rest}</div>{body}</body></html>", a[0])
+    } else {
+        format!("{styles}{body}")
+    };
     let mut best = 0;
     for k in 1..c.decls.len() {
         if rank(&c.decls[k], k) >= rank(&c.decls[best], best) {
@@ -241,11 +255,11 @@ impl Scope for S {
             let idx = decode(unit - self.dec_off[li - 1], &vec![n; len]);
             let decls: Vec<Decl> = idx.iter().map(|&i| self.decls[i]).collect();
             for prop in ["color", "background-color"] {
-                for split in [false, true] {
-                    check_decls(&Case { decls: decls.clone(), colours: vec![], prop: prop.to_string(), split }, cx);
+                for (split, scatter) in [(false, false), (true, false), (true, true)] {
+                    check_decls(&Case { decls: decls.clone(), colours: vec![], prop: prop.to_string(), split, scatter }, cx);
                     // the same declaration text repeated after a competing one: A B A
                     if decls.len() == 3 {
-                        check_decls(&Case { decls: decls.clone(), colours: vec![0, 1, 0], prop: prop.to_string(), split }, cx);
+                        check_decls(&Case { decls: decls.clone(), colours: vec![0, 1, 0], prop: prop.to_string(), split, scatter }, cx);
                     }
                 }
             }
@@ -258,7 +272,7 @@ impl Scope for S {
     }
     fn info(&self) -> Info {
         Info {
-            rule: "all ordered tuples of 2..=3 (thorough: ..=4) declarations from {agent,user,author,inline} x {normal,!important} x 7 selector specificity classes (incl. 11 classes vs one id, 11 types vs one class) applied to one element, for color and background-color, same-origin declarations in one sheet and split over two sheets; plus all sheets of <= 3 (thorough: 4) colour rules over 7 selectors on a three-deep ancestor chain; non-trivial = two declarations of different cascade rank apply".into(),
+            rule: "all ordered tuples of 2..=3 (thorough: ..=4) declarations from {agent,user,author,inline} x {normal,!important} x 7 selector specificity classes (incl. 11 classes vs one id, 11 types vs one class) applied to one element, for color and background-color, same-origin declarations in one sheet, split over adjacent sheets, and (author) scattered over <style> elements in <head> and inside a later <div> of the body; plus all sheets of <= 3 (thorough: 4) colour rules over 7 selectors on a three-deep ancestor chain; non-trivial = two declarations of different cascade rank apply".into(),
             bounds: json!({"declaration_kinds": self.decls.len(), "declaration_tuples": self.dec_off.last(), "chain_sheets": self.chain_off.last(), "selectors": SELS.iter().map(|s| s.0).collect::<Vec<_>>(), "chain_selectors": CSELS.iter().map(|s| s.0).collect::<Vec<_>>(), "tier": self.tier.name()}),
             assumptions: vec!["reference cascade: importance/origin class, then inline, then (ids, classes+pseudo-classes, types), then source order (last wins)".into()],
         }
